@@ -65,6 +65,7 @@ type verifConn struct {
 	noDeadlineErrs bool
 	onWrite func(c *verifConn) // hook after each accepted write
 	beforeWrite func()         // hook at the start of each Write, before the bytes are looked at
+	stall       chan struct{}  // non-nil: a Write blocks until the connection is closed (a peer that stopped reading, no deadline)
 	coarse  bool               // case-split faulty write offsets coarsely (0, 1, len-1)
 	onClose func()             // hook at Close
 	slow    bool               // a Write takes time: other goroutines get to run meanwhile (scheduling point)
@@ -77,6 +78,10 @@ func (c *verifConn) Write(p []byte) (int, error) {
 	}
 	if c.beforeWrite != nil {
 		c.beforeWrite()
+	}
+	if c.stall != nil && !c.closed && !c.wArmed {
+		<-c.stall // only Close ends it
+		return 0, net.ErrClosed
 	}
 	if c.closed {
 		return 0, net.ErrClosed
@@ -159,6 +164,9 @@ func (c *verifConn) Close() error {
 	c.closeCalls++
 	if c.slow && !c.closed {
 		verifYieldTag("close") // closing takes time: other goroutines may still write meanwhile
+	}
+	if c.stall != nil && !c.closed {
+		close(c.stall)
 	}
 	c.closed = true
 	if c.onClose != nil && c.closeCalls == 1 {
